@@ -7,14 +7,14 @@ import vlib, gen_trace
 
 # which oracle kinds belong to which property (a check only reports its own kinds)
 KINDS = {
-    "C01": {"overlap", "content", "usable", "strdup", "crash"},
+    "C01": {"overlap", "content", "usable", "strdup", "crash", "queue"},
     "C03": {"align", "usable"},
     "C16": {"goodsize"},
     "C04": {"zero", "rezalloc-zero"},
     "C05": {"realloc-content", "expand", "usable", "realloc-null", "content"},   # content: live blocks (incl. the original of a failed re-allocation) intact
     "C06": {"malformed", "posix", "errno", "fail", "content"},   # content: a failing call leaves every live block intact
-    "C10": {"owner", "heap", "content", "overlap", "crash"},
-    "C12": {"walk"},
+    "C10": {"owner", "heap", "content", "overlap", "crash", "queue"},
+    "C12": {"walk", "queue"},
     "C13": None,   # every kind
 }
 ALL_PROFILES = list(gen_trace.PROFILES)
@@ -199,7 +199,7 @@ def run_traces(res, pid, plan, seed, dump=True, options=None, exe=None, tag="", 
     # page-model disagreements: every property reports the class of disagreement that concerns it (C01/C13: all of them)
     def mclass(l):
         return "walk" if "heap walk of page" in l else "direct" if "direct table law" in l else "page"
-    wanted = {"C01": {"page", "walk", "direct"}, "C13": {"page", "walk", "direct"}, "C12": {"walk"}, "C16": {"direct"}}.get(pid, set())
+    wanted = {"C01": {"page", "walk", "direct"}, "C13": {"page", "walk", "direct"}, "C12": {"walk", "queue"}, "C16": {"direct"}}.get(pid, set())
     mine_m = [(path, l) for path, l in mism if mclass(l) in wanted]
     if mine_m:
         has_wit = bool(mine)
